@@ -122,7 +122,10 @@ def run_case(case):
         Python ints (an or_else flag as a Python bool), as callers commonly do."""
         aj = gfi.to_jax(args, ["tup", atys])
         if case.get("py") and stored is None:
-            aj = tuple((bool(int(a)) if (k == 0 and prog[0] == "orelse") else int(a)) if t == ["int"] else a
+            # (a concrete mask flag is normalised away by Mask itself — C19's subject, and a known finding of
+            #  C01 replayed with "py_mask" — so generated histories keep mask flags as arrays)
+            aj = tuple((bool(int(a)) if (k == 0 and prog[0] == "orelse") else int(a))
+                       if t == ["int"] and not (k == 0 and prog[0] == "mask" and not case.get("py_mask")) else a
                        for k, (a, t) in enumerate(zip(aj, atys)))
         return aj
 
